@@ -138,8 +138,8 @@ class ExprMixin:
             cls = self.m.field_cls.get(n.attr) if hasattr(self.m, "field_cls") else None
             return T(self.m.fields[n.attr], f"(select {self.field(st, n.attr).s} {o.s})", cls)
         if n.attr in self.m.stable:
-            spec = self.m.stable[n.attr]
-            sort, cls = spec if isinstance(spec, tuple) and len(spec) == 2 and not isinstance(spec[0], str) or (isinstance(spec, tuple) and spec and spec[0] in (REF, OBJ, STR, INT, BOOL) and len(spec) == 2 and isinstance(spec[1], (str, type(None))) and spec[1] not in (REF, OBJ, STR, INT, BOOL)) else (spec, None)
+            sort = self.m.stable[n.attr]
+            cls = self.m.stable_cls.get(n.attr)
             return c.app(f"sattr_{n.attr}", [o.sort], sort, [o], cls)
         f = c.fun(f"attr_{n.attr}", [o.sort, INT], OBJ)
         return T(OBJ, f"(|{f}| {o.s} {st.ver})")
